@@ -33,3 +33,74 @@ Definition degrees_fitb (c : compiled) : bool :=
 Definition side_conditions (d : desc) : res (list bool) :=
   do g <- build d; do c <- compile d g;
   Ok [names_sepb g Req; names_sepb g Rsp; negb (d_nw d) || names_sepb g Wide; single_attachb g c; links_typedb g c; degrees_fitb c].
+
+(* ---------------------------------------------------------------- tree certificate (C09 for trees) *)
+(* a depth for every unit; the certificate is CHECKED (tree_certb), how it was computed does not matter *)
+Definition dep_of (dp : list (string * Z)) (u : string) : Z :=
+  match find (fun p => str_eqb (fst p) u) dp with Some p => snd p | None => -1 end.
+Definition goes_up (dp : list (string * Z)) (l : link) : bool := dep_of dp (snd l) <? dep_of dp (fst l).
+Definition tree_certb (g : graph) (dp : list (string * Z)) : bool :=
+  let L := map epair (link_edges g) in
+  (* every link joins two units whose (non-negative) depths differ by one *)
+  forallb (fun l => (0 <=? dep_of dp (fst l)) && (0 <=? dep_of dp (snd l)) &&
+                    ((dep_of dp (snd l) =? dep_of dp (fst l) + 1) || (dep_of dp (fst l) =? dep_of dp (snd l) + 1))) L &&
+  (* every unit has at most one neighbour above it *)
+  forallb (fun l1 => forallb (fun l2 => negb (str_eqb (fst l1) (fst l2)) || negb (goes_up dp l1) || negb (goes_up dp l2)
+                                        || str_eqb (snd l1) (snd l2)) L) L &&
+  (* every link has its reverse *)
+  forallb (fun l => existsb (pair_eqb (snd l, fst l)) L) L.
+
+(* breadth-first levels: the certificate the harness offers *)
+Definition add_new (acc : list string) (x : string) : list string := if existsb (str_eqb x) acc then acc else acc ++ [x].
+Fixpoint bfs_levels (fuel : nat) (L : list link) (frontier : list string) (seen : list (string * Z)) (lvl : Z) : list (string * Z) :=
+  match fuel with
+  | O => seen
+  | S f =>
+      let nxt := fold_left add_new
+                   (filter (fun v => negb (existsb (fun p => str_eqb (fst p) v) seen))
+                           (flat_map (fun u => map snd (filter (fun l => str_eqb (fst l) u) L)) frontier)) [] in
+      match nxt with
+      | [] => seen
+      | _ => bfs_levels f L nxt (seen ++ map (fun v => (v, lvl + 1)) nxt) (lvl + 1)
+      end
+  end.
+(* one breadth-first search per connected component (a forest is certified as well) *)
+Fixpoint forest_levels (L : list link) (cands : list string) (seen : list (string * Z)) : list (string * Z) :=
+  match cands with
+  | [] => seen
+  | u :: rest =>
+      if existsb (fun p => str_eqb (fst p) u) seen then forest_levels L rest seen
+      else forest_levels L rest (bfs_levels (length L) L [u] (seen ++ [(u, 0)]) 0)
+  end.
+Definition levels (g : graph) : list (string * Z) :=
+  let L := map epair (link_edges g) in forest_levels L (map fst L) [].
+(* every interface injects into a router *)
+Definition attach_of (nt : net) (x : cni) : link :=
+  match nt with Rsp => (snd (cn_sbr_link x), fst (cn_sbr_link x)) | _ => cn_mgr_link x end.
+Definition attachedb (c : compiled) (nt : net) : bool :=
+  forallb (fun s0 => is_rtb c (snd (attach_of nt s0))) (c_nis c).
+(* the first hop of every shortest path between two interfaces is the router the source injects into *)
+Definition first_hopb (sp : oracle) (g : graph) (c : compiled) (nt : net) : bool :=
+  forallb (fun s0 => forallb (fun t => str_eqb (cn_name s0) (cn_name t) ||
+                                       match sp g (cn_name s0) (cn_name t) with
+                                       | Some p => str_eqb (snd (attach_of nt s0)) (hd "" (tl p))
+                                       | None => true
+                                       end) (c_nis c)) (c_nis c).
+(* shortest paths from every router to every interface exist and run through routers only *)
+Definition transit_allb (sp : oracle) (c : compiled) : bool :=
+  forallb (fun t => forallb (fun r => match sp (c_graph c) (cr_name r) (cn_name t) with
+                                      | Some p => forallb (is_rtb c) (removelast p)
+                                      | None => false
+                                      end) (c_rts c)) (c_nis c).
+
+(* the hypotheses of C09_model_tree (ID) / C09_hw_tree_acyclic_src (SRC), in the order: tree certificate
+   (breadth-first levels), routing by tables or source routes, transit (ID) / first hops (SRC; req, rsp),
+   names (req, rsp), single attachment, typed links, degrees, attachment to routers (req, rsp) *)
+Definition tree_conditions (sp : oracle) (d : desc) : res (list bool) :=
+  do g <- build d; do c <- compile d g;
+  if tree_certb g (levels g) then
+    Ok [true; match d_algo d with XY => false | _ => true end;
+        match d_algo d with SRC => first_hopb sp g c Req && first_hopb sp g c Rsp | _ => transit_allb sp c end;
+        names_sepb g Req; names_sepb g Rsp;
+        single_attachb g c; links_typedb g c; degrees_fitb c; attachedb c Req; attachedb c Rsp]
+  else Ok [false].
